@@ -142,6 +142,7 @@ func (Engine) Run(t *tape.Tape, o eng.Opts) *eng.Result {
 		res.Violations = append(res.Violations, eng.Violation{Property: "C03", Rule: rule, Detail: detail, Shape: shape})
 	}
 	if sr.Deadlock {
+		res.Poisoned = true
 		viol("liveness.deadlock", "every unfinished task is blocked outside the scheduler", nil)
 		return res
 	}
